@@ -276,22 +276,22 @@ void do_op(Ctx &c, const Op &o, int idx) {
       if (o.a >= 6) { // push everything down, level by level, to the last level
         for (int l = 0; l <= 5; l++) ldb_test_compact_range(c.db, l, NULL, NULL);
         probe("push_down_to_last_level");
-      } else if (o.b == 1) {
+      } else if (o.b >= 1) { // 1: [a,b]  2: [a,end)  3: (begin,b]
         string a = o.key, b = o.key2;
         if (c.kc.cmp(b, a) < 0) std::swap(a, b);
         ldb_slice_t sa = S(a), sb = S(b);
-        ldb_test_compact_range(c.db, lvl, &sa, &sb);
+        ldb_test_compact_range(c.db, lvl, o.b == 3 ? NULL : &sa, o.b == 2 ? NULL : &sb);
       } else ldb_test_compact_range(c.db, lvl, NULL, NULL);
       structure_checks(c, false, "after compact_range");
       if (!failed()) sweep(c, "after compact_range");
       break;
     }
     case O_COMPACT: {
-      if (o.b == 1) {
+      if (o.b >= 1) {
         string a = o.key, b = o.key2;
         if (c.kc.cmp(b, a) < 0) std::swap(a, b);
         ldb_slice_t sa = S(a), sb = S(b);
-        ldb_compact(c.db, &sa, &sb);
+        ldb_compact(c.db, o.b == 3 ? NULL : &sa, o.b == 2 ? NULL : &sb);
       } else ldb_compact(c.db, NULL, NULL);
       structure_checks(c, true, "after compact");
       if (!failed()) sweep(c, "after compact");
@@ -477,7 +477,7 @@ Plan gen_model(uint64_t seed, const string &prop) {
       case O_PUT: o.key = key(); o.tag = tag++; o.len = vlen(); if (style == 2 && o.key != hot && o.len > 100000) o.len = (uint32_t)r.range(100, 3000); o.fill = (int)r.below(2); o.sync = r.chance(0.1); break;
       case O_DEL: o.key = key(); o.sync = r.chance(0.1); break;
       case O_WRITE: {
-        int n = r.chance(0.1) ? (int)r.range(20, 200) : (int)r.range(1, 8);
+        int n = r.chance(0.1) ? (int)r.range(20, 200) : r.chance(0.03) ? 0 : (int)r.range(1, 8); // now and then an empty batch
         for (int q = 0; q < n; q++) { Upd u; u.key = key(); u.del = r.chance(0.25); if (!u.del) { u.tag = tag++; u.len = n > 20 ? (uint32_t)r.range(0, 300) : vlen(); u.fill = (int)r.below(2); } o.ups.push_back(u); }
         o.sync = r.chance(0.1);
         break;
@@ -493,8 +493,8 @@ Plan gen_model(uint64_t seed, const string &prop) {
         break;
       }
       case O_ITER_FREE: o.a = (int)r.below(NITER); break;
-      case O_COMPACT_RANGE: o.a = r.chance(0.1) ? 9 : (int)r.below(6); o.b = r.chance(style ? 0.7 : 0.4); if (o.b) { o.key = key(); o.key2 = style ? near_key(o.key) : key(); } break;
-      case O_COMPACT: o.b = r.chance(style ? 0.7 : 0.3); if (o.b) { o.key = key(); o.key2 = style ? near_key(o.key) : key(); } break;
+      case O_COMPACT_RANGE: o.a = r.chance(0.1) ? 9 : (int)r.below(6); o.b = r.chance(style ? 0.7 : 0.4); if (o.b) { o.key = key(); o.key2 = style ? near_key(o.key) : key(); if (r.chance(0.3)) o.b = (int)r.range(2, 3); } break;
+      case O_COMPACT: o.b = r.chance(style ? 0.7 : 0.3); if (o.b) { o.key = key(); o.key2 = style ? near_key(o.key) : key(); if (r.chance(0.35)) o.b = (int)r.range(2, 3); } break;
       case O_APPROX: o.key = key(); o.key2 = key(); break;
       case O_PROPERTY: o.a = (int)r.below(5); break;
       case O_REOPEN: o.b = r.chance(0.5); if (r.chance(0.5)) { Config n = random_config(r); n.cmp = p.cfg.cmp; n.rlimit = p.cfg.rlimit; o.s = n.str(); } break;
